@@ -50,6 +50,9 @@ def op_alphabet():
     ops.append(["update", [[0, 5]]])
     ops.append(["update", [[1, 6], [0, 6]]])
     ops.append(["update", [[0, 5], [0, 6]]])
+    # update() with a mapping: another MultiMapping / dict built from the pairs, and the mapping itself (seed C17-14)
+    ops.append(["updmap", [[0, 5], [1, 6], [0, 6]]])
+    ops.append(["updself"])
     return ops
 
 
@@ -80,14 +83,14 @@ def cases(tier, rng):
         for _ in range(rng.randrange(1, 41)):
             k, v = rng.randrange(4), rng.randrange(10, 14)
             kind = rng.choice(["set", "append", "setdefault", "del", "poplist", "pop", "popd", "setlist", "popitem",
-                               "clear", "update", "set", "append", "setlist"])
+                               "clear", "update", "set", "append", "setlist", "updself", "updmap"])
             if kind in ("set", "append", "setdefault", "popd"):
                 seq.append([kind, k, v])
             elif kind in ("del", "poplist", "pop"):
                 seq.append([kind, k])
             elif kind == "setlist":
                 seq.append([kind, k, [rng.randrange(10, 14) for _ in range(rng.randrange(0, 4))]])
-            elif kind == "update":
+            elif kind in ("update", "updmap"):
                 seq.append([kind, [[rng.randrange(4), rng.randrange(10, 14)] for _ in range(rng.randrange(0, 4))]])
             else:
                 seq.append([kind])
@@ -228,6 +231,14 @@ def apply_op(m, o):
         elif name == "update":
             m.update([tuple(p) for p in o[1]])
             r = []
+        elif name == "updmap":
+            from baize.datastructures import MultiMapping
+            ps = [tuple(p) for p in o[1]]
+            m.update(MultiMapping(ps) if len(ps) % 2 else dict(ps))
+            r = []
+        elif name == "updself":
+            m.update(m)
+            r = []
         elif name == "clear":
             m.clear()
             r = []
@@ -320,6 +331,15 @@ def spec_apply(a, o, popped_key):
         return a + [[o[1], o[2]]], ["v", o[2]]
     if name == "update":
         for k, v in o[1]:
+            a, _ = spec_apply(a, ["set", k, v], None)
+        return a, []
+    if name in ("updmap", "updself"):
+        # a mapping argument contributes each of its keys once, with the key's last value, in first-occurrence order
+        src = a if name == "updself" else o[1]
+        lastv = {}
+        for k, v in src:
+            lastv[k] = v
+        for k, v in lastv.items():
             a, _ = spec_apply(a, ["set", k, v], None)
         return a, []
     if name == "clear":
